@@ -52,14 +52,18 @@ LEVEL_TEXT = ("Machine-checked proof (Coq, closed under the global context), for
               "model's own definitions (vm_compute) against real Channel objects driven through the run() loop's own "
               "dispatch statements, by deterministic two-thread schedules on set_combine_stderr, and by real loopback "
               "transfers (zlib, re-keys, 8 channels).")
-LEVEL_NOTE = ("Trusted: Coq kernel + vm_compute; BufferedPipe is modelled as a list FIFO (its own correctness is C26), "
+LEVEL_NOTE = ("Trusted: Coq kernel + vm_compute; gen/c21.py (fail-closed translator: constants regenerated into "
+              "Gen/C21_gen.v and re-proved equal to the model's each run; lock / statement-order shapes of the run() "
+              "channel branch, set_combine_stderr, _feed_extended, exit-status, recv_exit_status, "
+              "_wait_for_send_window, _handle_eof, _handle_close pinned by AST); BufferedPipe is modelled as a list FIFO (its own correctness is C26), "
               "in-order packet delivery is C01, window accounting C19/C20; the identification of the model's atomic "
               "steps with the real critical sections (channel lock in set_combine_stderr/_feed_extended, pipe lock in "
               "feed/read/empty) is validated by the scheduled runs, not proved; recv with a negative size, "
               "truncated DATA messages (zero padding rule of Message.get_bytes, C39) and channel-id reuse (C23) are "
               "outside the model.")
 TECHNIQUE = ("Coq proof (induction over arbitrary interleaved histories via a local step relation; order-preserving "
-             "merge) + vm_compute differential correspondence + deterministic two-thread schedules + loopback transfers")
+             "merge) + fail-closed AST translator (message numbers, handler table, stderr code, packet overhead, "
+             "pinned statement shapes) + vm_compute differential correspondence + deterministic two-thread schedules + loopback transfers")
 
 LOGNAME = "verif.c21"
 BIG = 2 ** 31
@@ -75,11 +79,48 @@ def _quiet():
 
 def model_mm(ctx, run_fn, case_type, cases, **kw):
     """ctx.model_mismatches, retried once when coqc itself fails (loaded machine)."""
-    try:
-        return ctx.model_mismatches(run_fn, case_type, cases, **kw)
-    except RuntimeError as e:
-        ctx.notes.append("coqc failed once on %s cases (%s); retried" % (run_fn, str(e)[:200]))
-        return ctx.model_mismatches(run_fn, case_type, cases, **kw)
+    for attempt in (0, 1):
+        try:
+            return ctx.model_mismatches(run_fn, case_type, cases, **kw)
+        except Exception as e:  # noqa
+            if attempt == 0:
+                ctx.notes.append("coqc failed once on %s cases (%s); retried" % (run_fn, str(e)[:200]))
+            else:
+                # never let the model side stop the implementation-level oracles
+                ctx.disagree("model %s could not be evaluated (model/translator broken?)" % run_fn,
+                             model=str(e)[-600:])
+    return []
+
+
+BATCH = []
+
+
+def model_later(ctx, ctor, cases, on_bad):
+    """Queue cases of a small family for one common model evaluation (`run_any`); cases = [(coq_text, expected)];
+    on_bad(i) is called for every index whose model output differs."""
+    BATCH.append((ctor, list(cases), on_bad))
+
+
+def model_flush(ctx):
+    global BATCH
+    batch, BATCH = BATCH, []
+    flat, owner = [], []
+    for b, (ctor, cases, on_bad) in enumerate(batch):
+        for i, (txt, exp) in enumerate(cases):
+            flat.append(("(%s %s)" % (ctor, txt), exp))
+            owner.append((b, i))
+    if not flat:
+        return
+    bad = model_mm(ctx, "run_any", "anycase", flat, shard=100)
+    hits = {}
+    for j in bad:
+        b, i = owner[j]
+        hits.setdefault(b, []).append(i)
+    for b, idxs in hits.items():
+        ctor, cases, on_bad = batch[b]
+        ctx.log("model %s: %d of %d cases differ" % (ctor, len(idxs), len(cases)))
+        for i in idxs[:2]:
+            on_bad(i)
 
 
 # ----------------------------------------------------------------------------------------------
@@ -627,10 +668,9 @@ def scheduled_runs(ctx, n, pairs=None):
             micro.append(((list(a), list(b), sched), exp, case))
         if i == 0:
             ctx.sample({"scheduled": {"a": a, "b": b, "stdout": out, "stderr": err}})
-    bad = model_mm(ctx, "run_micro", "(list Z * list Z * list bool)", [(coq(c), e) for c, e, _ in micro])
-    for i in bad[:2]:
-        ctx.disagree("scheduled set_combine_stderr/_feed_extended run differs from the statement-level model",
-                     case=micro[i][2], impl=micro[i][1])
+    model_later(ctx, "AMicro", [(coq(c), e) for c, e, _ in micro],
+                lambda i: ctx.disagree("scheduled set_combine_stderr/_feed_extended run differs from the "
+                                       "statement-level model", case=micro[i][2], impl=micro[i][1]))
 
 
 # ----------------------------------------------------------------------------------------------
@@ -678,10 +718,9 @@ def sendall_cases(ctx, n):
         canon += [-1]
         ctx.count(("sendall", s, tuple(grants)), nontrivial=len(s) > 0, kind="sendall")
         cases.append(((grants, list(s)), canon))
-    bad = model_mm(ctx, "run_sendall", "(list Z * list Z)", [(coq(c), e) for c, e in cases])
-    for i in bad[:2]:
-        ctx.disagree("Channel.sendall chunking differs from the model", case={"grants": cases[i][0][0]},
-                     impl=cases[i][1])
+    model_later(ctx, "ASendall", [(coq(c), e) for c, e in cases],
+                lambda i: ctx.disagree("Channel.sendall chunking differs from the model",
+                                       case={"grants": cases[i][0][0]}, impl=cases[i][1]))
 
 
 def sendall_window_cases(ctx, n, fixed=None):
@@ -743,10 +782,9 @@ def sendall_window_cases(ctx, n, fixed=None):
         canon += [-1] + list(s[len(sent):]) + [-2, final]
         ctx.count(("sendall-win", s, w, pkt), nontrivial=L > 0, kind="sendall-window")
         cases.append(((w, pkt, list(s)), canon, case))
-    bad = model_mm(ctx, "run_sendall_win", "(Z * Z * list Z)", [(coq(c), e) for c, e, _ in cases])
-    for i in bad[:2]:
-        ctx.disagree("Channel.sendall / _wait_for_send_window differ from the model (sizes or window debit)",
-                     case=cases[i][2], impl=cases[i][1])
+    model_later(ctx, "ASendWin", [(coq(c), e) for c, e, _ in cases],
+                lambda i: ctx.disagree("Channel.sendall / _wait_for_send_window differ from the model (sizes or "
+                                       "window debit)", case=cases[i][2], impl=cases[i][1]))
 
 
 # ----------------------------------------------------------------------------------------------
@@ -877,10 +915,9 @@ def exit_status_runs(ctx, n):
                 sched = [True, True, False, False]
             exp = [1, got] if isinstance(got, int) else [0]
             cases.append(((-1, v, sched), exp, case))
-    bad = model_mm(ctx, "run_exit", "(Z * Z * list bool)", [(coq(c), e) for c, e, _ in cases])
-    for i in bad[:2]:
-        ctx.disagree("scheduled exit-status handler / recv_exit_status run differs from the statement-level model",
-                     case=cases[i][2], impl=cases[i][1])
+    model_later(ctx, "AExit", [(coq(c), e) for c, e, _ in cases],
+                lambda i: ctx.disagree("scheduled exit-status handler / recv_exit_status run differs from the "
+                                       "statement-level model", case=cases[i][2], impl=cases[i][1]))
 
 
 # ----------------------------------------------------------------------------------------------
@@ -1178,6 +1215,32 @@ def run_loopback(ctx, nchan, total, label, big=None):
 # ----------------------------------------------------------------------------------------------
 
 
+def constants_check(ctx):
+    """The message numbers / handlers the harness feeds are the ones the model (and, via Gen/C21_gen.v, the
+    source) names for each message kind."""
+    import paramiko
+    table = paramiko.Transport._channel_handler_table
+    codes = {"_request_success": 1, "_request_failed": 2, "_feed": 3, "_feed_extended": 4, "_window_adjust": 5,
+             "_handle_request": 6, "_handle_eof": 7, "_handle_close": 8}
+    samples = [("Data", [1]), ("ExtData", 1, [2]), ("ExitStatus", 3), ("ReqOther",), ("WinAdj", 4), ("Success",),
+               ("Eof",), ("Close",)]
+    cases = []
+    for m in samples:
+        pt, _ = build_message(0, m)
+        h = table[pt].__name__ if pt in table else "?"
+        ctx.count(("ptype", m[0]), kind="constants")
+        cases.append((coq(tuple(m)), [pt, codes.get(h, 0)]))
+    model_later(ctx, "APtype", cases,
+                lambda i: ctx.disagree("message number / handler of a message kind differs from the model",
+                                       case=samples[i], impl=cases[i][1]))
+    from paramiko.channel import Channel
+    ch = Channel(1)
+    if ch.exit_status != -1 or ch.combine_stderr is not False:
+        ctx.disagree("Channel.__init__ initial exit_status / combine_stderr differ from the model's chan0",
+                     impl=[ch.exit_status, ch.combine_stderr])
+    ch.closed = True
+
+
 def rng_channels(ctx):
     return ctx.rng.randrange(2, 8)
 
@@ -1202,16 +1265,34 @@ def run(ctx):
                         "recv sizes are non-negative"]
     ctx.prove()
     scale = 8 if ctx.thorough else 1
-    dispatch, text = build_dispatch()
-    ctx.notes.append("dispatch statements executed from Transport.run: " + text[:200])
 
-    t0 = time.time()
-    direct_drive(ctx, dispatch, 300 * scale)
-    ctx.log("direct drive done (%.1fs)" % (time.time() - t0))
-    scheduled_runs(ctx, 6 * scale)
-    sendall_cases(ctx, 60 * scale)
-    sendall_window_cases(ctx, 80 * scale)
-    exit_status_runs(ctx, 6 * scale)
+    def section(name, fn):
+        """Each part runs on its own: a failure of one (translator, model, fail-closed AST cut) never stops
+        the implementation-level oracles of the others."""
+        try:
+            fn()
+        except Exception:  # noqa
+            import traceback
+            ctx.disagree("check section '%s' raised" % name, impl=traceback.format_exc()[-1500:])
+
+    def direct():
+        dispatch, text = build_dispatch()
+        ctx.notes.append("dispatch statements executed from Transport.run: " + text[:200])
+        t0 = time.time()
+        direct_drive(ctx, dispatch, 240 * scale)
+        ctx.log("direct drive done (%.1fs)" % (time.time() - t0))
+
+    section("constants", lambda: constants_check(ctx))
+    section("direct drive", direct)
+    section("combine schedules", lambda: scheduled_runs(ctx, 6 * scale))
+    section("sendall", lambda: sendall_cases(ctx, 40 * scale))
+    section("sendall window", lambda: sendall_window_cases(ctx, 60 * scale))
+    section("exit status", lambda: exit_status_runs(ctx, 6 * scale))
+    section("model evaluation of the small families", lambda: model_flush(ctx))
+    section("loopback", lambda: loopbacks(ctx))
+
+
+def loopbacks(ctx):
     t0 = time.time()
     for k in range(2):
         run_loopback(ctx, 3, 48 * 1024, "small%d" % k)
@@ -1267,3 +1348,4 @@ def replay(ctx, rep):
         scheduled_runs(ctx, 1, pairs=[(a, b)])
     else:
         run(ctx)
+    model_flush(ctx)
